@@ -73,3 +73,40 @@ def keys_pool(rng, n):
         else:
             out.append("".join(chr(rng.choice([0xE9, 0x20AC, 0x1F600, 0x41, 0x7F, 0x80])) for _ in range(rng.randint(1, 5))) + str(i))
     return out
+
+
+def geometry_scan(n_max, rates=(0.03, 0.05, 0.01), near=1e-6):
+    """Directed search for a Bloom geometry on which the library's bit count differs from the documented
+    rule m = ceil(-n ln p / 0.4804530139182) (p as a 32-bit float), k = round(0.6931471805599453 m / n).
+    A difference needs the documented quotient to be almost an integer, so est_elements is scanned in
+    plain floats and the real `_get_optimized_params` is only called on near-integer candidates (and on a
+    sparse sample).  Model-free: compares the real code with the documented formula only.
+    Returns (finding dict or None, number of est values scanned, number of real calls)."""
+    import math
+    import struct
+
+    from probables import BloomFilter
+
+    scanned = calls = 0
+    for p in rates:
+        t = struct.unpack("<f", struct.pack("<f", p))[0]
+        nl = -math.log(t)
+        c = 0.4804530139182
+        n = 1
+        while n <= n_max:
+            if core.search_expired():
+                return None, scanned, calls
+            stop = min(n + 200000, n_max + 1)
+            for est in range(n, stop):
+                q = (est * nl) / c
+                r = q - math.floor(q)
+                if r < near or r > 1.0 - near or est % 99991 == 0:
+                    calls += 1
+                    got = BloomFilter._get_optimized_params(est, p)
+                    want_m = math.ceil((-est * math.log(t)) / c)
+                    want_k = int(round(0.6931471805599453 * want_m / est))
+                    if (got[1], got[2]) != (want_k, want_m):
+                        return ({"est": est, "fpr": p, "got": [got[1], got[2]], "documented": [want_k, want_m]}, scanned + est - n, calls)
+            scanned += stop - n
+            n = stop
+    return None, scanned, calls
